@@ -794,7 +794,8 @@ case("c20-pow-operator", "C20", "mutant", [(EX_, """    ast.USub: operator.neg,
 case("c20-compare-try-removed", "C20", "mutant", [(EX_, """            try:
                 if not op_func(left, right):
                     return False
-            except TypeError as e:
+            except (TypeError, ValueError) as e:
+                # ValueError: e.g. `300 in b"abc"` (byte must be in range(0, 256))
                 raise ExpressionError(
                     f"Cannot compare {type(left).__name__} and {type(right).__name__} with {type(op).__name__}: {e}"
                 ) from e
@@ -852,7 +853,8 @@ case("c20-create-skips-validation", "C20", "mutant", [("src/stabilize/models/wor
 case("c20-refactor-rename-opfunc", "C20", "refactor", [(EX_, """            op_func = _SAFE_OPERATORS.get(type(op))
             if op_func is None:""", """            cmp_ = _SAFE_OPERATORS.get(type(op))
             if cmp_ is None:"""), (EX_, """                if not op_func(left, right):""", """                if not cmp_(left, right):""")])
-case("c20-refactor-catch-exception", "C20", "refactor", [(EX_, """            except TypeError as e:
+case("c20-refactor-catch-exception", "C20", "refactor", [(EX_, """            except (TypeError, ValueError) as e:
+                # ValueError: e.g. `300 in b"abc"` (byte must be in range(0, 256))
                 raise ExpressionError(
                     f"Cannot compare""", """            except Exception as e:
                 raise ExpressionError(
@@ -1214,3 +1216,6 @@ case("c16-jump-keys-stay-inherited", "C16", "mutant", [(H + "jump_to_stage/handl
 """, """                if inherited:
                     pass
 """)], "C16.R4")
+case("c10-sweeps-buffered-workflows", "C10", "mutant", [(REC_, """            statuses={WorkflowStatus.RUNNING, WorkflowStatus.NOT_STARTED},""", """            statuses={WorkflowStatus.RUNNING, WorkflowStatus.NOT_STARTED, WorkflowStatus.BUFFERED},""")], "C10.R8")
+
+case("c20-membership-valueerror-dropped", "C20", "mutant", [(EX_, """            except (TypeError, ValueError) as e:""", """            except TypeError as e:""")], "C20.R3")
